@@ -61,7 +61,7 @@ REQUIRED_COUNTERS = dict(
      ('fields_compared', 10000), ('ambiguity_checked', 100000),
      ('destination_flag_checked', 10000),
      ('overlap_hotfix_legacy_resolved_as_hotfix', 1),
-     ('roundtrip_w', 10000), ('roundtrip_qw', 10000), ('roundtrip_q', 10),
+     ('roundtrip_w', 10000), ('roundtrip_qw', 10000), ('roundtrip_q', 6),
      ('roundtrip_ghost', 1000), ('handle_commit_mapping', 10000),
      ('roundtrip_hotfix_version', 1000), ('c18w_cases', 20),
      ('c18w_queue_names_checked', 10), ('c18w_merged_and_landed', 20)])
